@@ -1,6 +1,7 @@
 package mocker
 
 import (
+	"errors"
 	"reflect"
 
 	"github.com/tencent/goom/arg"
@@ -558,4 +559,72 @@ func VC_C04_pointer_arguments() {
 	verifAssert((got == 5) == want, "C04.pointer.condition-compares-pointees")
 	verifAssert(got == 5 || got == -1, "C04.pointer.result-is-configured")
 	verifReached("C04.pointer")
+}
+
+func vFE04(a int) (*int, error, []int) { return nil, nil, nil }
+
+// VC_C04_eval: a When built with NewWhen and evaluated with Eval (the public way to use a
+// stub without patching): the condition that matches selects the row, the default
+// otherwise; results come back as the declared types hold them (nil pointer / nil error as
+// untyped nil, a nil slice as a typed nil slice, everything else unaltered).
+func VC_C04_eval() {
+	vEnv()
+	defer func() {
+		if e := recover(); e != nil {
+			verifAssert(false, "C04.eval.no-panic")
+		}
+	}()
+	x := verifInt("x")
+	c1, c2 := verifInt("c1"), verifInt("c2")
+	e1 := errors.New("e1")
+	w := NewWhen(reflect.TypeOf(vFE04))
+	w.Return(nil, nil, nil)
+	w.When(c1).Return(&x, e1, []int{x})
+	w.When(c2).Return(&x, nil, []int(nil))
+	a := verifInt("a")
+	out := w.Eval(a)
+	verifAssert(len(out) == 3, "C04.eval.one-value-per-result")
+	if len(out) != 3 {
+		return
+	}
+	s, isSlice := out[2].([]int)
+	verifAssert(isSlice, "C04.eval.slice-result-keeps-its-type")
+	switch {
+	case a == c1:
+		p, ok := out[0].(*int)
+		verifAssert(ok && p == &x && out[1] == error(e1) && len(s) == 1 && s[0] == x, "C04.eval.first-matching-condition-selected")
+	case a == c2:
+		p, ok := out[0].(*int)
+		verifAssert(ok && p == &x && out[1] == nil && s == nil, "C04.eval.second-condition-selected")
+	default:
+		verifAssert(out[0] == nil && out[1] == nil && s == nil, "C04.eval.default-otherwise")
+	}
+	verifReached("C04.eval")
+}
+
+func vF3(a, b, c int) int { return 0 }
+
+// VC_C04_in_any_positions: In tuples with Any() at any position: the other elements
+// still have to match.
+func VC_C04_in_any_positions() {
+	vEnv()
+	defer func() {
+		if e := recover(); e != nil {
+			verifAssert(false, "C04.in-any.no-panic")
+		}
+	}()
+	c0, c1, c2 := verifInt("c0"), verifInt("c1"), verifInt("c2")
+	w, err := CreateWhen(nil, vF3, nil, []interface{}{-1}, false)
+	verifAssert(err == nil, "C04.in-any.create-ok")
+	pos := verifChoice("anyAt", 3)
+	tuple := []interface{}{c0, c1, c2}
+	tuple[pos] = arg.Any()
+	w.In(tuple).Return(5)
+	a0, a1, a2 := verifInt("a0"), verifInt("a1"), verifInt("a2")
+	f := vStubFunc(w).(func(int, int, int) int)
+	got := f(a0, a1, a2)
+	m := verifAnd(verifOr(pos == 0, a0 == c0), verifAnd(verifOr(pos == 1, a1 == c1), verifOr(pos == 2, a2 == c2)))
+	verifAssert((got == 5) == m, "C04.in-any.other-elements-still-compared")
+	verifAssert(got == 5 || got == -1, "C04.in-any.result-is-configured")
+	verifReached("C04.in-any")
 }
